@@ -130,6 +130,7 @@ class RerunConverges(FlowBase):
                 return [{"kind": "stuck_after_rerun",
                          "sig": {"status": status, "default_request": not g["rr"]["requested_explicit"],
                                  "nothing_requested": not g["rr"]["requested"] and not g["off"],
+                                 "after_partial_join_rerun": sim.h["rejoin"],
                                  "has_items": bool(self._items)},
                          "detail": {"requested": g["rr"]["requested"],
                                     "staged": [s["id"] for s in post["state"]["staged"]]}}]
